@@ -41,6 +41,8 @@ def extra_unit_root_specs():
     out.append(S(2, [rw, ar2], [dict(terms=[(1, 0, 2.0)], const=0.0, shock=False)], False, "ur_ar2"))
     fwd = dict(terms=[(1, +1, 0.5), (0, 0, 0.3), (0, -1, -0.3)], const=0.0, shock=True)
     out.append(S(2, [rw, fwd], [dict(terms=[(1, 0, 1.0)], const=0.0, shock=True)], False, "ur_forward"))
+    out.append(linre.oscillating_spec("two"))
+    out.append(linre.oscillating_spec("one"))
     return out
 
 
